@@ -453,6 +453,11 @@ func weakeningsOf(x cty.Value, full bool) []cty.Value {
 			add(func() cty.Value {
 				return cty.UnknownVal(ty).Refine().NumberRangeLowerBound(cty.NumberIntVal(100), true).NewValue()
 			})
+			// a second one whose numeric range is disjoint from the first: two nulls weakened to
+			// these stay equal although no number is in both ranges
+			add(func() cty.Value {
+				return cty.UnknownVal(ty).Refine().NumberRangeUpperBound(cty.NumberIntVal(-100), true).NewValue()
+			})
 			if full {
 				add(func() cty.Value {
 					return cty.UnknownVal(ty).Refine().NumberRangeLowerBound(cty.Zero, false).NumberRangeUpperBound(cty.NumberIntVal(1), false).NewValue()
@@ -460,11 +465,10 @@ func weakeningsOf(x cty.Value, full bool) []cty.Value {
 			}
 		case ty == cty.String:
 			add(func() cty.Value { return cty.UnknownVal(ty).Refine().StringPrefixFull("zq").NewValue() })
+			add(func() cty.Value { return cty.UnknownVal(ty).Refine().StringPrefixFull("yy").NewValue() })
 		case ty.IsCollectionType():
 			add(func() cty.Value { return cty.UnknownVal(ty).Refine().CollectionLengthLowerBound(5).NewValue() })
-			if full {
-				add(func() cty.Value { return cty.UnknownVal(ty).Refine().CollectionLengthUpperBound(0).NewValue() })
-			}
+			add(func() cty.Value { return cty.UnknownVal(ty).Refine().CollectionLengthUpperBound(0).NewValue() })
 		}
 		return dedupRaw(out)
 	}
@@ -1235,4 +1239,33 @@ func clusterEnds(s string) []int {
 		b = b[adv:]
 	}
 	return out
+}
+
+// numSpellings returns, for every finite number given, the same or a documented-equal number
+// held differently: re-rounded to 64 and 2048 bits of mantissa (exact when the precision
+// grows), passed through an arithmetic identity (x+0, x*1, which widen float-derived numbers),
+// and its own shortest decimal text parsed again at the parser's 512 bits.  Equality, hashing
+// and set membership must treat every group alike wherever Equals says the members are equal.
+func numSpellings(base []cty.Value) []cty.Value {
+	var out []cty.Value
+	for _, v := range base {
+		if v.IsNull() || !v.IsKnown() || v.Type() != cty.Number || isInf(v) {
+			continue
+		}
+		f := bf(v)
+		out = append(out,
+			cty.NumberVal(new(big.Float).SetPrec(64).Set(f)),
+			cty.NumberVal(new(big.Float).SetPrec(2048).Set(f)),
+			v.Add(cty.NumberIntVal(0)), v.Multiply(cty.NumberIntVal(1)))
+		if txt := f.Text('f', -1); len(txt) < 1500 {
+			if p, err := cty.ParseNumberVal(txt); err == nil {
+				out = append(out, p)
+			}
+		}
+		if f.IsInt() {
+			// whole numbers: also at the 53 bits a float-derived computation carries
+			out = append(out, cty.NumberVal(new(big.Float).SetPrec(53).Set(f)))
+		}
+	}
+	return dedupRaw(out)
 }
